@@ -182,6 +182,53 @@ def label(x, p):
             Or(other == nm, Not(first == short)))
 
 
+def label_src(x, p):
+    """From source text: a goto label and the gotos that name it (the label
+    written with or without blanks inside its colons, where the lexer takes
+    that) come out of luamin with one and the same identifier."""
+    from props.C01 import relex
+    nm = x.bytes('nm', p['L'], 97, 122)
+    other = b'q' if p.get('other') else x.bytes('other', 1, 97, 122)
+    sp1 = x.choice('sp1', [b'', b' ', b'\t', b'  '])
+    sp2 = x.choice('sp2', [b'', b' ', b'\t'])
+    src = (other + b'=1\n::' + sp1 + nm + sp2 + b'::\n' + other + b'=2\ngoto ' +
+           nm + b'\n')
+    try:
+        prog = lua.Lua.from_lines([src], version=8)
+    except Exception:
+        x.tag('not accepted')     # no claim about programs picotool refuses
+        return
+    x.tag('accepted')
+    try:
+        w = lua.LuaMinifyTokenWriter(tokens=prog.tokens, root=prog.root,
+                                     args={})
+        sdict_factories(x, w)
+        out = b''.join(w.to_lines())
+    except Exception as e:
+        x.check('luamin works on an accepted program', False, info=repr(e))
+        return
+    x.out('out', out)
+    toks = relex(x, out)
+    if toks is None:
+        x.check('luamin output lexes', False)
+        return
+    labels = [t[1] for t in toks if t[0] == 'label']
+    gotos = [toks[k + 1][1] for k in range(len(toks) - 1)
+             if toks[k][0] == 'keyword' and toks[k][1] == b'goto']
+    x.check('one label, one goto in the output',
+            And(len(labels) == 1, len(gotos) == 1))
+    if len(labels) != 1 or len(gotos) != 1:
+        return
+    lab = labels[0]
+    inner = lab[2:len(lab) - 2]
+    x.check('label and goto carry the same identifier',
+            inner.strip() == gotos[0])
+    names = [t[1] for t in toks if t[0] == 'name']
+    x.check('the other identifier is renamed consistently and apart from '
+            'the label', And(names[0] == names[1], Or(
+                other == nm, Not(names[0] == gotos[0]))))
+
+
 def keepfile(x, p):
     """read_names_file: one name per line, blank lines and lines whose first
     non-blank character is '#' ignored, surrounding blanks stripped."""
@@ -219,6 +266,8 @@ HARNESSES = [
                       dict(Q, mode='keep_file', entries=2, L=2, nkeep=2,
                            B=20000, _budget=1800),
                       dict(Q, mode='keep_all', entries=2, L=3, B=20000)]),
+    Harness('label_src', label_src, quick=[dict(Q, L=1, other='q')],
+            thorough=[dict(Q, L=1), dict(Q, L=2, _budget=1800)]),
     Harness('label', label, quick=[dict(Q, L=1), dict(Q, L=2)],
             thorough=[dict(Q, L=3)]),
     Harness('keepfile', keepfile, quick=[Q]),
